@@ -56,6 +56,9 @@ P = {
  "C15": ("model_checking", "Durability.tla two-step reader lookups x rollover sub-steps model-checked by TLC; every reachable (writer position at live lookup, writer position at pool lookup) pair forced on a real Database through hook-controlled threads; free-running stress",
          "TLC explores Durability.tla (1 writer, readers with live-index step and reader-pool step, rollover sub-steps) with ReaderNeverMisses/PublishedMonotone and emits every reachable pair of writer positions at a reader's two steps; each pair is forced on a real Database by parking the writer thread at hook points through a real rollover and the reader between its two lookups, for each read API; reads must contain everything acknowledged before they started and a later read must not lose anything; plus 4 writers / 4 readers racing over small segments.",
          "Windows between two hook points are covered by the stress part only; quick tier runs two of the six read APIs per schedule (rotating).", "5/C15", "h-store"),
+ "C06": ("fault_enumeration", "IndexCrash.tla (per-file crash cut classes, required recovery) checked by TLC; classes expanded to byte-level truncations of the real index files of a sealed segment and reopened",
+         "IndexCrash.tla enumerates the 252 joint classes (each of the three index files empty / cut in magic, counts, MPHF, bloom, records / complete) with the required outcome; each class is expanded to concrete truncation lengths on a real data directory with sealed segments, the image is reopened with DatabaseBuilder::open and every acknowledged event is looked up by id, stream scan and partition scan. The as-is behaviour (no rebuild) is recorded as two known findings keyed by failure kind and cut class; any other failure (e.g. with complete files, or a different failure kind) is reported.",
+         "The sealed segment's data file is complete and fsynced. Known findings: reopen blocked for header-level cuts, lookups failing for record-level cuts.", "5/C06", "h-store"),
 }
 
 NOT_YET = "not yet built in this session (planned: see DESIGN.md section 5); no claim is made"
